@@ -12,8 +12,9 @@ from .cdisc_funcs import df_of, f_of
 class CDisc(Discipline):
     """a (2), b (1), s (1, self-coupled) -> y (2), s (1)."""
 
-    def __init__(self, sparse=False):
+    def __init__(self, sparse=False, inplace=False):
         super().__init__("CDisc")
+        self.inplace = inplace
         self.io.input_grammar.update_from_names(["a", "b", "s"])
         self.io.output_grammar.update_from_names(["y", "s"])
         self.io.input_grammar.defaults.update({"a": array([1.0, 2.0]), "b": array([0.5]), "s": array([0.0])})
@@ -28,7 +29,16 @@ class CDisc(Discipline):
         if self.fail_next:
             self.fail_next = False
             raise ValueError("injected failure of _run")
-        return f_of({k: input_data[k] for k in ("a", "b", "s")})
+        out = f_of({k: input_data[k] for k in ("a", "b", "s")})
+        if self.inplace:
+            # a body that updates its self-coupled variable in place (the buffer it received)
+            buf = input_data["s"]
+            try:
+                buf[...] = out["s"]
+                out["s"] = buf
+            except ValueError:  # read-only buffer
+                pass
+        return out
 
     def _compute_jacobian(self, input_names=(), output_names=()):
         self.n_jac += 1
